@@ -7,6 +7,8 @@ import ChibiVerif.Spec.LinkageSpec
 namespace ChibiVerif.Linkage
 open ChibiVerif.Spec.Linkage
 
+variable [Rules]
+
 /-- reachability through `succ` -/
 inductive ReachS (succ : Name → List Name) : Name → Name → Prop where
   | refl {a} : ReachS succ a a
